@@ -222,7 +222,7 @@ pub fn gen_policy() -> Result<String, String> {
 // ---------------------------------------------------------------- reference parser (oracle)
 
 #[derive(Clone, Copy)]
-struct Bp { lbp: u32, rbp: u32, rbp2: u32, nonassoc: bool }
+pub struct Bp { pub lbp: u32, pub rbp: u32, pub rbp2: u32, pub nonassoc: bool }
 
 fn level(b: B, o: u32) -> u32 {
     let cmp = (10..=15).contains(&o); let is = o == 4 || o == 5; let inn = o == 6 || o == 7; let like = o == 2 || o == 3; let btw = o == 8 || o == 9;
@@ -236,7 +236,7 @@ fn level(b: B, o: u32) -> u32 {
             else if o == 16 || o == 17 { 8 } else if [18, 19, 20, 37].contains(&o) { 9 } else if o == 25 { 0 } else { 7 },
     }
 }
-fn bp(b: B, o: u32) -> Bp {
+pub fn bp(b: B, o: u32) -> Bp {
     let l = level(b, o); let asx = if o == 25 { 1 } else { 0 };
     let btw = o == 8 || o == 9; let like = o == 2 || o == 3; let is = o == 4 || o == 5; let inn = o == 6 || o == 7; let cmp = (10..=15).contains(&o);
     match b {
@@ -245,8 +245,8 @@ fn bp(b: B, o: u32) -> Bp {
         B::Postgres => Bp { lbp: 2 * l + asx, rbp: if btw { 14 } else { 2 * l + 1 + asx }, rbp2: 13, nonassoc: is || cmp || inn || like || btw || o == 30 || o == 31 },
     }
 }
-fn nbp(b: B) -> u32 { if b == B::Mysql { 9 } else { 7 } }
-fn mix_of(o: u32) -> Option<u32> { if o == 8 || o == 9 { Some(0) } else if o == 2 || o == 3 || o == 30 || o == 31 { Some(26) } else { None } }
+pub fn nbp(b: B) -> u32 { if b == B::Mysql { 9 } else { 7 } }
+pub fn mix_of(o: u32) -> Option<u32> { if o == 8 || o == 9 { Some(0) } else if o == 2 || o == 3 || o == 30 || o == 31 { Some(26) } else { None } }
 
 /// operator spellings as token sequences, obtained from the crate itself (the spelling table is C08's business)
 pub struct Spell { pub by_id: Vec<(u32, Vec<String>)> }
